@@ -4,6 +4,7 @@
 #include "nfl/meta.hpp"
 #include "nfl/arch.hpp"
 #include <tuple>
+#include <type_traits>
 #include <iostream>
 #include <limits>
 
@@ -49,6 +50,11 @@ namespace ops {
 template<class Arg, class... Args>
   constexpr Arg first_of(Arg arg, Args... args) { return arg; }
 
+// Conversion of an expression to bool is "some coefficient is non-zero", except
+// for functors (equality) whose truth requires every coefficient to be non-zero.
+template <class Op>
+struct bool_requires_all : std::false_type {};
+
 template <class Op, class... Args>
 struct expr {
   using simd_mode = typename Op::simd_mode;
@@ -87,11 +93,11 @@ struct expr {
         alignas(32) value_type tmp[vector_size];
         simd_mode::store(tmp, load<simd_mode>(cm, j));
         for(size_t k = 0; k < vector_size; ++k)
-          if(tmp[k])
-            return true;
+          if(bool_requires_all<Op>::value ? !tmp[k] : !!tmp[k])
+            return !bool_requires_all<Op>::value;
       }
     }
-    return false;
+    return bool_requires_all<Op>::value;
   }
 
 };
@@ -105,6 +111,9 @@ struct eqmod {
     return x == y;
   }
 };
+
+template<class T, class tag>
+struct bool_requires_all<eqmod<T, tag>> : std::true_type {};
 
 template<class T, class tag>
 struct neqmod {
